@@ -36,8 +36,16 @@ def pick_markup(rng, r, exp_list, name, getter_value, base, unsafe_ok=False):
     """one element from the documented URI-attribute table carrying reference r"""
     t, a = rng.choice(SAFE_PAIRS)
     void = t in ("img", "input", "area", "source", "link")
-    m = '<%s %s="%s"%s' % (t, a, attr_esc(r), "/>" if void else ">x</%s>" % t)
-    exp_list.append(("%s %s@%s" % (name, t, a), (lambda t, a: lambda d: embedded(getter_value(d), t, a))(t, a), rfc_resolve(base, r), "embedded"))
+    pairs = [(a, r)]
+    if rng.random() < 0.4:
+        # an element may carry SEVERAL URI attributes at once (img src + longdesc + usemap, input src + usemap, …): each is resolved on its own
+        others = [a2 for t2, a2 in SAFE_PAIRS if t2 == t and a2 != a]
+        rng.shuffle(others)
+        pairs += [(a2, rng.choice(REFS)) for a2 in others[:rng.randint(1, 3)]]
+        rng.shuffle(pairs)
+    m = '<%s %s%s' % (t, " ".join('%s="%s"' % (a_, attr_esc(r_)) for a_, r_ in pairs), "/>" if void else ">x</%s>" % t)
+    for a_, r_ in pairs:
+        exp_list.append(("%s %s@%s" % (name, t, a_), (lambda t, a: lambda d: embedded(getter_value(d), t, a))(t, a_), rfc_resolve(base, r_), "embedded"))
     return m
 XB = [None, None, None, "http://e1.example/a/b", "sub/", "sub/leaf", "/root/", "/root/x", "?q=1", "", "javascript:x//", "https://s.example/", "../up/", "data:text/plain,x", "//net.example/p/", "/mirror/?u=http://orig.example/dir/", "m/?u=https://orig.example/"]
 XL = [None, None, "en", "fr-CA", "", "de"]
